@@ -20,7 +20,7 @@ def load_rule(pid: str):
         raise
 
 
-def run_one(pid: str, tier: str, replay: str | None = None) -> int:
+def run_one(pid: str, tier: str, replay: str | None = None, jobs: int = 16) -> int:
     try:
         mod = load_rule(pid)
         ctx = Ctx(pid, tier, getattr(mod, 'LEVEL', 'other'))
@@ -39,6 +39,15 @@ def run_one(pid: str, tier: str, replay: str | None = None) -> int:
                 print(json.dumps({k: o[k] for k in ('rule', 'construct', 'ok', 'where', 'detail', 'facts')},
                                  indent=1, default=str))
             ctx.quiet = True
+        if tier == 'thorough' and not replay:
+            from .selftest import driver
+            summ = driver.run_for_property(pid, jobs)
+            ctx.analysed['self-validation'] = {k: (v if k != 'failed' else [f['id'] for f in v]) for k, v in summ.items()}
+            if summ['failed']:
+                for f in summ['failed']:
+                    print(f'SELFTEST-FAIL property={pid} variant={f["id"]} expect={f.get("expect")} rc={f.get("rc")} {f.get("lines")}')
+                ctx.finish()
+                return 2
         return ctx.finish()
     except AnalysisError as e:
         print(f'ANALYSIS-ERROR property={pid}: {e}')
@@ -69,11 +78,7 @@ def main(argv: list[str]) -> int:
             if fn.startswith('c') and fn.endswith('.py') and fn[1:-3].isdigit():
                 worst = max(worst, run_one(fn[:-3].upper(), args.tier))
         return worst
-    rc = run_one(args.property.upper(), args.tier, args.replay)
-    if rc == 0 and args.tier == 'thorough' and not args.replay:
-        from .selftest import driver
-        rc = driver.run_for_property(args.property.upper(), args.jobs)
-    return rc
+    return run_one(args.property.upper(), args.tier, args.replay, args.jobs)
 
 
 if __name__ == '__main__':
